@@ -145,6 +145,21 @@ Definition uniqueb (d : inst) (fs : list feat) : bool :=
                   && steps_strictb d [f0] rest
   end.
 
+(* informational (pipeline cases only, where the scores are arbitrary doubles): the same checks with a slack, used by the
+   harness to tell a float near-tie from a wrong choice; nothing is proved about it *)
+Fixpoint steps_slackb (eps : Q) (d : inst) (prefix rest : list feat) : bool :=
+  match rest with
+  | [] => true
+  | f :: s => forallb (fun g => Qle_bool (score d prefix g) (score d prefix f + eps)) s
+              && steps_slackb eps d (prefix ++ [f]) s
+  end.
+Definition valid_slackb (eps : Q) (d : inst) (r : list (feat * Z)) : bool :=
+  permb d (map fst r) && ranksb r &&
+  match map fst r with
+  | [] => true
+  | f0 :: rest => forallb (fun g => Qle_bool (relv d g) (relv d f0 + eps)) (feats d) && steps_slackb eps d [f0] rest
+  end.
+
 (* Appendix C interface *)
 Definition C17_case := inst.
 Definition C17_obs := list (feat * Z).
